@@ -195,7 +195,9 @@ def _swv_over_diff(prog, vals):
         return reaches(v, src, seen)
 
     # consumers that freeze per-block chunk metadata at construction
-    return any(s["op"] in ("sliding_window_view", "swv_reduce", "repeat", "broadcast_to") and any(depends(a, set()) for a in s["args"]) for s in prog["stmts"])
+    # ... and matmul, whose contraction tree is sized from the advertised block count of the contracted axis
+    # (r @ r.T for r = diff(x, n=2).rechunk((3, 2)) silently drops a block's contribution)
+    return any(s["op"] in ("sliding_window_view", "swv_reduce", "repeat", "broadcast_to", "matmul") and any(depends(a, set()) for a in s["args"]) for s in prog["stmts"])
 
 
 @excl("KF-ufunc-where-0d-out")
@@ -204,8 +206,11 @@ def _where_out_0d(prog, vals):
     0-d out= makes the ufunc return a scalar)."""
     L = len(prog["leaves"])
     for k, s in enumerate(prog["stmts"]):
-        if s["op"] == "getitem" and vals[L + k].ndim == 0 and "add_where_out" in ancestors_ops(prog, s["args"][0]):
-            return True
+        if s["op"] == "getitem" and "add_where_out" in ancestors_ops(prog, s["args"][0]):
+            # 0-d result, or an integer that makes the pushed-down operand 0-d while None keeps the rank (x[-5, None])
+            t = s["index"].get("tuple", []) if isinstance(s.get("index"), dict) else []
+            if vals[L + k].ndim == 0 or (any(isinstance(e, int) and not isinstance(e, bool) for e in t) and vals[s["args"][0]].ndim == sum(1 for e in t if isinstance(e, int) and not isinstance(e, bool))):
+                return True
     return False
 
 
